@@ -78,6 +78,25 @@ def nonfinite_prop(rng, p):
     return ('prop', meta, scope, ('pat', pat[1], ev, pat[3], pat[4]))
 
 
+def wordy_prop(rng, p):
+    """text-valued AST fields that spell the non-standard JSON constants (they must survive serialisation)"""
+    word = gen.pick(rng, ('NaN', 'Infinity', '-Infinity', 'null', 'got NaN from driver', 'Infinity and beyond'))
+    _, meta, scope, pat = p
+    k = rng.random()
+    if k < 0.4:
+        meta = tuple(m for m in meta if m[0] != 'title') + (('title', '"%s"' % word),)
+    elif k < 0.8:
+        atom = ('bin', gen.pick(rng, ('=', '!=')), A.fld(gen.pick(rng, ('status', 'NaN', 'Infinity'))), ('lit', 'str', '"%s"' % word))
+        ev = pat[2]
+        first = ev[1][0] if ev[0] == 'disj' else ev
+        first = ('ev', first[1], first[2], atom if first[3] is None else ('bin', 'and', first[3], atom))
+        ev = ('disj', (first,) + ev[1][1:]) if ev[0] == 'disj' else first
+        pat = ('pat', pat[1], ev, pat[3], pat[4])
+    else:
+        meta = tuple(m for m in meta if m[0] != 'description') + (('description', '"%s"' % word),)
+    return ('prop', meta, scope, pat)
+
+
 def run(ctx):
     rng = ctx.rng
     n, nsub = BUDGET[ctx.tier]
@@ -95,6 +114,8 @@ def run(ctx):
                 p = nonfinite_prop(rng, p)
             if rng.random() < 0.3:
                 p = p[:3] + (p[3][:4] + (None,),)  # untimed: max_time = inf
+            if rng.random() < 0.2:
+                p = wordy_prop(rng, p)
             pool.append(p)
             if len(pool) > 50:
                 pool.pop(0)
